@@ -90,7 +90,7 @@ fn main() {
 
     if what == "debug-floor" {
         let mut rng = util::Rng::new(seed);
-        for slot in [31u32, 33, 41] {
+        for slot in [31u32, 41, 47] {
             let prog = gen::prog::floor_program(&mut rng, slot);
             let (payload, table, hist) = refmodel::lzma::encode_program(&prog, refmodel::lzma::Props::new(0, 0, 0)).unwrap();
             let mut prev = 5u64;
